@@ -170,4 +170,64 @@ theorem lookup_iff (cfg : Cfg) (h : Handler) (dec : Decomposed cfg h)
       exact ⟨R, hR, hm⟩
     · exact absurd hr hrp
 
+/-- the segments of the pattern for a slash-free value -/
+theorem splitOn_pattern (cfg : Cfg) (h : Handler) (dec : Decomposed cfg h) (hlk : truthy cfg.lookupKey = true)
+    (v : Str) (hvs : '/' ∉ v) :
+    splitOn '/' (joinWith ['/'] (h.prefixSegs ++ (h.segPre ++ v ++ h.segSuf) :: h.suffixSegs))
+      = h.prefixSegs ++ (h.segPre ++ v ++ h.segSuf) :: h.suffixSegs := by
+  obtain ⟨_, hpre, hsuf, hAs, hBs, _⟩ := lookup_facts cfg h dec hlk
+  apply splitOn_joinWith _ _ (by simp)
+  intro s hs
+  simp only [List.mem_append, List.mem_cons] at hs
+  rcases hs with hs | rfl | hs
+  · exact hAs s hs
+  · simp only [List.mem_append, not_or]; exact ⟨⟨hpre, hvs⟩, hsuf⟩
+  · exact hBs s hs
+
+/-- **The remaining path of the context is the remaining path of the statement**: in
+    directory mode, for any witness `v` with `decoded = pattern(v) ++ extra`, the context's
+    `extra_path` is that `extra`. -/
+theorem extraPath_spec (cfg : Cfg) (h : Handler) (dec : Decomposed cfg h)
+    (_hmode : truthy cfg.file = !truthy cfg.rootDir) (uri : Str) (hn : hasNul uri = false)
+    (hdir : truthy cfg.file = false) (ph : Option Str)
+    (hph : ph = if truthy cfg.lookupKey then some cfg.placeholder else none)
+    (v extra t : Str) (hv : valueOK ph v = true) (hp : pattern cfg.requestPath ph v = some t)
+    (hD : unquote (cutQuery uri) = t ++ extra) (hm : modeOK false cfg.requestPath extra = true) :
+    (prepareContext h uri).extraPath = some extra := by
+  have hfm : h.fileMode = false := by unfold Handler.fileMode; rw [dec.cfg_eq]; exact hdir
+  have hpc : prepareContext h uri = matchSegs h (splitOn '/' (unquote (cutQuery uri))) := by
+    unfold prepareContext
+    simp [hn, hfm]
+  simp only [modeOK, Bool.false_eq_true, if_false, beq_iff_eq] at hm
+  cases extra with
+  | nil => simp at hm
+  | cons c e =>
+    simp at hm; subst hm
+    have hsplit : splitOn '/' (unquote (cutQuery uri)) = splitOn '/' t ++ splitOn '/' e := by
+      rw [hD]; exact splitOn_append_sep '/' t e
+    have hrest : RestOK h (splitOn '/' e) := Or.inl ⟨splitOn_ne_nil _ _, hfm⟩
+    have hextra : extraOfRest (splitOn '/' e) = some ('/' :: e) := by
+      unfold extraOfRest
+      rw [if_neg (splitOn_ne_nil _ _), joinWith_cons_of_ne_nil _ _ _ (splitOn_ne_nil _ _), joinWith_splitOn]
+      rfl
+    rw [hpc, ← hextra]
+    cases hlk : truthy cfg.lookupKey with
+    | false =>
+      obtain ⟨hex, hP⟩ := dec.plain hlk
+      rw [hlk] at hph; subst hph
+      simp only [pattern, Option.some.injEq, Bool.false_eq_true, if_false] at hp
+      subst hp
+      exact ((matchSegs_plain h _ hex).2 _ (by rw [hsplit, hP]) hrest).2
+    | true =>
+      obtain ⟨hex, _, _, _, _⟩ := dec.lookup hlk
+      rw [hlk] at hph; subst hph
+      simp only [if_true, pattern] at hp
+      simp only [if_true, valueOK, Bool.and_eq_true, Bool.not_eq_true', List.isEmpty_eq_false_iff,
+        List.contains_eq_mem, decide_eq_false_iff_not] at hv
+      rw [pattern_lookup cfg h dec hlk v] at hp
+      simp only [Option.some.injEq] at hp
+      subst hp
+      rw [splitOn_pattern cfg h dec hlk v hv.2] at hsplit
+      exact ((matchSegs_lookup h _ hex).2 v _ hv.1 (by rw [hsplit]; simp) hrest).2
+
 end Vinegar.Paths
